@@ -8,7 +8,7 @@ NAMES = ["c1", "c2", "chrX", "2L", "sc-1.a", "M", "chr10", "z"]
 LAYOUT_KINDS = ("fixed", "fixed-exact", "variable", "onebin", "longlast", "fixed1", "mixed-one")
 
 
-def gen_layout(rng, maxchroms=4, maxbins=8, kind=None):
+def gen_layout(rng, maxchroms=4, maxbins=8, kind=None, noscale=False):
     """-> {"names": [...], "edges": [[...], ...], "kind": str}"""
     kind = kind or rng.choice(LAYOUT_KINDS)
     nchr = rng.randint(1, maxchroms)
@@ -52,7 +52,7 @@ def gen_layout(rng, maxchroms=4, maxbins=8, kind=None):
     elif kind == "onebin":
         for c in range(nchr):
             edges.append([0, rng.randint(1, 50)])
-    if nchr >= 3 and rng.random() < 0.08:
+    if nchr >= 3 and not noscale and rng.random() < 0.08:
         # a genome that may exceed 2**31 bp in total while every contig (and coordinate, also after
         # doubling) fits int32
         maxlen = max(e[-1] for e in edges)
